@@ -22,7 +22,7 @@ use rustc_middle::mir::{self, Body, Operand, Place, Rvalue, StatementKind, Termi
 use rustc_middle::ty::print::with_no_visible_paths;
 use rustc_middle::ty::print::with_no_trimmed_paths;
 use rustc_middle::ty::print::PrintTraitRefExt;
-use rustc_middle::ty::{self, Ty, TyCtxt, TypingEnv};
+use rustc_middle::ty::{self, Ty, TyCtxt, TypeVisitableExt, TypingEnv};
 use std::fmt::Write as _;
 
 // ---------- tiny JSON ----------
@@ -91,7 +91,13 @@ fn ty_json<'tcx>(tcx: TyCtxt<'tcx>, ty: Ty<'tcx>) -> String {
         K::RawPtr(t, m) => obj(vec![("k", esc("ptr")), ("mut", b(m.is_mut())), ("ty", ty_json(tcx, *t))]),
         K::Tuple(ts) => obj(vec![("k", esc("tuple")), ("tys", arr(ts.iter().map(|t| ty_json(tcx, t)).collect()))]),
         K::Array(t, n) => {
-            let len = match n.try_to_target_usize(tcx) {
+            // a length spelled with a named constant is unevaluated at this point: normalise it
+            let n2 = if n.try_to_target_usize(tcx).is_none() && !n.has_non_region_param() {
+                tcx.try_normalize_erasing_regions(TypingEnv::fully_monomorphized(), ty::Unnormalized::new_wip(*n)).unwrap_or(*n)
+            } else {
+                *n
+            };
+            let len = match n2.try_to_target_usize(tcx) {
                 Some(v) => format!("{}", v),
                 None => "null".to_string(),
             };
@@ -306,6 +312,11 @@ fn rvalue_json<'tcx>(tcx: TyCtxt<'tcx>, env: TypingEnv<'tcx>, body: &Body<'tcx>,
             obj(vec![("k", esc("aggregate")), ("kind", kind), ("ops", arr(ops.iter().map(|o| op(o)).collect()))])
         }
         Rvalue::Repeat(o, n) => {
+            let n = if n.try_to_target_usize(tcx).is_none() && !n.has_non_region_param() {
+                tcx.try_normalize_erasing_regions(TypingEnv::fully_monomorphized(), ty::Unnormalized::new_wip(*n)).unwrap_or(*n)
+            } else {
+                *n
+            };
             let len = match n.try_to_target_usize(tcx) {
                 Some(v) => format!("{}", v),
                 None => "null".to_string(),
